@@ -3,13 +3,97 @@
 e2e (CrossHair): symbolic token-kind sequences through Earley, LALR and CYK with keep_all_tokens / maybe_placeholders on and off;
 the returned tree must be the documented shaping (refsem.shape) of a derivation (refsem.cfg) - of *the* derivation when there
 is one, hence all engines agree."""
-from vfw import corpus
+import itertools
+from typing import List
+
+from vfw import corpus, hs
 from vfw.harness.planutil import tok_slices
+from vfw.refsem import cfg, shape
+from vfw.refsem.gdsl import Grammar, Rule, Alt, T, N, L, Opt, Maybe, Star
 
 PROPERTY = 'C03'
+P = hs.params()
 
-SHAPING = ['shape1', 'shape2', 'shape3', 'shape4', 'ebnf', 'list_sep', 'nullchain']
-LALR_SR = {'shape3', 'shape4'}      # LALR handles them with shift preference: completeness not asserted there
+# rule template: `R: item item [item]` with every modifier and option combination (solver-closed enumeration of programs, realised)
+ITEMS = {
+    'A': lambda: T('A'), '_U': lambda: T('_U'), 'x': lambda: L('x'), 'sub': lambda: N('sub'), '_inl': lambda: N('_inl'),
+    '[A]': lambda: Maybe(T('A')), '[_U]': lambda: Maybe(T('_U')), '[A sub]': lambda: Maybe(T('A'), N('sub')), '[_U x]': lambda: Maybe(T('_U'), L('x')),
+    'A?': lambda: Opt(T('A')), '[_inl]': lambda: Maybe(N('_inl')), 'x*': lambda: Star(L('x')),
+}
+ITEM_NAMES = list(ITEMS)
+MODS = ['', '?', '!', '?!']
+TPL_NAMES = ['A', '_U', 'X', 'C']
+
+if P and P.get('kind') == 'tpl':
+    from lark import Lark
+    from lark.exceptions import UnexpectedInput, GrammarError
+    NI = len(ITEM_NAMES)
+    NITEMS = P['nitems']
+    MOD = P['mod']
+    MP = P['mp']
+    KAT = P['kat']
+    LEX = hs.make_list_lexer(TPL_NAMES)
+    INPUTS = [list(w) for n in range(P['L'] + 1) for w in itertools.product(range(len(TPL_NAMES)), repeat=n)]
+
+
+def _tpl_grammar(items, mod):
+    return Grammar([Rule('start', [[N('r')], [T('C'), N('r'), T('C')]]), Rule(mod + 'r', [[ITEMS[i]() for i in items]]),
+                    Rule('sub', [[T('C')]]), Rule('_inl', [[T('C'), Opt(T('A'))]])], declare=['A', '_U', 'C'])
+
+
+def _tpl_body(rec, ix):
+    names = [ITEM_NAMES[hs.sel(ix[k], NI)] for k in range(NITEMS)]
+    with hs.untraced():
+        g = _tpl_grammar(names, MOD)
+        rec['key'] = [names, MOD, MP, KAT]
+        rec['nontrivial'] = True
+        bnf = cfg.BNF(g, maybe_placeholders=MP, keep_all_tokens=KAT)
+        parsers = []
+        for parser in ('earley', 'lalr'):
+            try:
+                parsers.append((parser, Lark(g.render(), parser=parser, lexer=LEX, maybe_placeholders=MP, keep_all_tokens=KAT)))
+            except GrammarError as e:
+                if 'Rules defined twice' in str(e) or 'Reduce/Reduce' in str(e):
+                    rec.setdefault('count', {})['grammar_errors_%s' % parser] = 1
+                    continue
+                raise
+        rec.setdefault('count', {})['grammars'] = 1
+        checked = 0
+        for w in INPUTS:
+            kinds = [TPL_NAMES[i] for i in w]
+            inp = cfg.TokenInput(kinds)
+            recog = cfg.Recognizer(bnf, inp)
+            if not recog.member():
+                continue
+            shaped = None
+            for parser, lk in parsers:
+                try:
+                    tree = lk.parse(w)
+                except UnexpectedInput:
+                    if parser == 'earley':
+                        return hs.fail(rec, 'Earley rejects a sentence', grammar=g.render(), kinds=kinds)
+                    continue        # LALR with conflicts: completeness not promised
+                if shaped is None:
+                    shaped = [shape.shape_root(d, inp) for d in recog.derivations(limit=2000)]
+                got = shape.of_lark(tree)
+                checked += 1
+                if not any(shape.same(s, got) for s in shaped):
+                    return hs.fail(rec, 'tree is not the documented shaping of any derivation', grammar=g.render(), parser=parser, kinds=kinds,
+                                   maybe_placeholders=MP, keep_all_tokens=KAT, got=got, expected_one_of=shaped[:3])
+        rec['count']['trees_checked'] = checked
+    return True
+
+
+def tpl(ix: List[int]) -> bool:
+    """
+    pre: len(ix) == NITEMS
+    post: _
+    """
+    return hs.run_path(_tpl_body, (ix,), corner=lambda ix: hs.sel(ix[NITEMS - 1], NI) == NI - 1 and hs.sel(ix[0], NI) == NI - 1)
+
+
+SHAPING = ['shape1', 'shape2', 'shape3', 'shape4', 'shape5', 'shape6', 'ebnf', 'list_sep', 'nullchain']
+LALR_SR = {'shape3', 'shape4', 'shape5', 'shape6'}      # LALR handles them with shift preference: completeness not asserted there
 
 
 def plan(tier, seed):
@@ -23,8 +107,16 @@ def plan(tier, seed):
             slices += tok_slices('e2e', g, 'lalr', L, ['member', 'shape'], 0.07, budget, extra, complete=g not in LALR_SR)
     for g in corpus.tok_names('cnf_ok'):
         slices += tok_slices('e2e', g, 'cyk', L, ['member', 'shape'], 0.15, budget)
+    for mod in MODS:
+        for mp in (True, False):
+            for kat in (False, True):
+                ni = 2 if quick else 3
+                slices.append({'id': 'tpl:%d-items:mod=%s:mp=%s:kat=%s' % (ni, mod or '-', mp, kat), 'func': 'tpl', 'mode': 'realised', 'module': 'vfw.harness.c03',
+                               'params': {'kind': 'tpl', 'nitems': ni, 'mod': mod, 'mp': mp, 'kat': kat, 'L': 4 if quick else 4},
+                               'timeout': 400 if quick else 3000, 'twin': mod == '' and mp and not kat,
+                               'bound': {'grammars': len(ITEM_NAMES) ** ni, 'input_tokens': 4}})
     meta = {
-        'rule': 'one path per viable token prefix plus one rejecting extension; non-trivial = non-empty input; accepted inputs are compared with the shaped derivation(s)',
+        'rule': 'tpl: one path per template grammar (rule of 2-3 items x modifier x options), each checked on every sentence up to 4 tokens; e2e: one path per viable token prefix plus one rejecting extension; non-trivial = non-empty input; accepted inputs are compared with the shaped derivation(s)',
         'technique': 'CrossHair symbolic execution of the real parsers and ParseTreeBuilder callbacks vs. an independent shaping oracle',
         'functions_encoded': ['lark.parse_tree_builder.ParseTreeBuilder.create_callback', 'ChildFilter/ChildFilterLALR/ChildFilterLALR_NoPlaceholders',
                               'ExpandSingleChild', 'maybe_create_child_filter', 'lark.load_grammar.EBNF_to_BNF (incl. maybe / FindRuleSize)',
